@@ -1649,6 +1649,14 @@ void EvalStrExpression(tStrComp const* pExpr, TempResult* pErg) {
             if (pFunction->ArgTypes[z1] & (1 << TempString)) {
                 TypeMask |= TempString;
             }
+            /* as for operators, a string with an integer value (1..4 characters)
+               is converted where only a number is accepted: */
+
+            if ((InVals[z1].Typ == TempString) && !(TypeMask & TempString)
+                && (TypeMask & (TempInt | TempFloat))
+                && (NonZString2Int(&InVals[z1].Contents.str) >= 0)) {
+                TempResultToInt(&InVals[z1]);
+            }
             if ((InVals[z1].Typ == TempInt) && !(TypeMask & TempInt)
                 && (TypeMask & TempFloat)) {
                 TempResultToFloat(&InVals[z1]);
